@@ -12,6 +12,8 @@ import (
 	"encoding/json"
 	"fmt"
 	"strings"
+	"sync"
+	"sync/atomic"
 
 	"github.com/CrowdStrike/csproto"
 	gogotypes "github.com/gogo/protobuf/types"
@@ -242,4 +244,54 @@ func refusals(c *checker, subs []*subject) {
 	if refused == 0 {
 		r.Internal("refusals: no value was refused by any runtime")
 	}
+}
+
+// sharedAdapter: a json.Marshaler is a value that callers share (it sits in a struct that several goroutines encode).
+// MarshalJSON reads the message; calling it from several goroutines on ONE adapter must give each caller the document a
+// lone caller gets. Free-running goroutines - SAMPLING, a complement to the enumeration above (the adapter has no
+// synchronisation a cooperative scheduler could interleave): a wrong document is a witness, silence proves nothing.
+func sharedAdapter(c *checker, subs []*subject) {
+	r := c.r
+	var calls, bad atomic.Int64
+	for _, rt := range []string{rtGogo, rtLegacy, rtGV2, rtGV1} {
+		n := 0
+		for _, s := range subs {
+			if s.rt != rt || n >= 3 || len(s.cases) == 0 {
+				continue
+			}
+			vc := s.cases[len(s.cases)-1]
+			for _, cb := range []combo{c.combos[0], c.combos[len(c.combos)-1]} {
+				jm := csproto.JSONMarshaler(vc.build(), cb.opts()...)
+				want, err, pan := guardB(jm.MarshalJSON)
+				if err != nil || pan != "" || len(want) < 8 {
+					continue
+				}
+				want = append([]byte{}, want...)
+				n++
+				var wg sync.WaitGroup
+				var first atomic.Value
+				for g := 0; g < 8; g++ {
+					wg.Add(1)
+					go func() {
+						defer wg.Done()
+						for i := 0; i < 150; i++ {
+							out, err, pan := guardB(jm.MarshalJSON)
+							calls.Add(1)
+							if pan != "" || err != nil || !bytes.Equal(out, want) {
+								bad.Add(1)
+								first.CompareAndSwap(nil, fmt.Sprintf("err=%v panic=%q output=%s", err, pan, trunc(out)))
+								return
+							}
+						}
+					}()
+				}
+				wg.Wait()
+				if v := first.Load(); v != nil {
+					r.Fail("shared-adapter/concurrent-MarshalJSON-differs-from-a-lone-call/"+rt, s.name()+"/"+vc.id+"/"+cb.String(), map[string]any{"lone_call": trunc(want), "concurrent_call": v})
+				}
+			}
+		}
+	}
+	r.Evals(calls.Load())
+	r.Set("shared_adapter_pass", map[string]any{"sampling": true, "goroutines": 8, "calls": calls.Load(), "note": "free-running complement; never contributes to the statement that the property held"})
 }
